@@ -47,14 +47,15 @@ const (
 	shOldTerm        // ends where the older term ends in the leader's log
 	shDiverge        // ends two (never committed) entries beyond the end of the older term
 	shMute           // level with the leader but does not answer replication (down)
+	shForeign        // holds, where this node's once-unreplicated entry stands, the entry of the leader of a term this node sat out
 )
 
-var shapeNames = []string{"level", "one-behind", "empty", "end-of-older-term", "longer-tail-of-older-term", "down"}
+var shapeNames = []string{"level", "one-behind", "empty", "end-of-older-term", "longer-tail-of-older-term", "down", "entry-of-a-skipped-term"}
 
 type election struct{ a, b int }
 
 var elections = []election{{shEqual, shEqual}, {shEqual, shBehind1}, {shBehind1, shDiverge}, {shDiverge, shDiverge}, {shEmpty, shEqual},
-	{shOldTerm, shDiverge}, {shEmpty, shDiverge}, {shDiverge, shMute}, {shBehind1, shMute}}
+	{shOldTerm, shDiverge}, {shEmpty, shDiverge}, {shDiverge, shMute}, {shBehind1, shMute}, {shEqual, shForeign}}
 
 const (
 	opNewTerm = iota
@@ -109,6 +110,8 @@ type cfol struct {
 	mute  bool
 	term  int64 // the leader term it has been fenced for
 	snaps int
+	// foreign: offset at which it holds the entry of a term the leader sat out (-1: none)
+	foreign int64
 }
 
 func (f *cfol) head() *proto.EntryId {
@@ -144,7 +147,12 @@ func (f *cfol) Truncate(req *proto.TruncateRequest) (*proto.TruncateResponse, er
 		if e != nil {
 			held = fmt.Sprintf("an entry of term %d", e.Term)
 		}
-		f.n.failf("truncate-to-entry-follower-does-not-hold", "%s (head %v) is told to truncate to (term %d, offset %d) where it holds %s", f.name, f.head(), h.Term, h.Offset, held)
+		key := "truncate-to-entry-follower-does-not-hold"
+		if f.foreign >= 0 && h.Offset == f.foreign {
+			key += ":entry-of-a-term-the-leader-sat-out"
+			f.n.foreignHit = true
+		}
+		f.n.failf(key, "%s (head %v) is told to truncate to (term %d, offset %d) where it holds %s", f.name, f.head(), h.Term, h.Offset, held)
 		return nil, fmt.Errorf("cannot truncate")
 	}
 	if h.Offset < f.base-1 {
@@ -253,6 +261,11 @@ type node struct {
 	acked   map[string]string
 	nextID  int
 	fails   []fail
+	// the entry appended while no follower answered: its offset and term, the term in which it was first
+	// replicated (0: not yet), and the terms in which this node was asked to lead
+	soloOff, soloTerm, soloCommitTerm int64
+	candidateIn                       map[int64]bool
+	foreignHit                        bool
 	// explore: the election step runs with schedule exploration switched on (schedule stage)
 	explore bool
 }
@@ -383,6 +396,24 @@ func shape(sh int, l []*proto.LogEntry) ([]*proto.LogEntry, bool) {
 	return nil, false
 }
 
+// foreignShape: the log of a follower that led the term right after the one in which this node appended an entry
+// no other node received. That follower was elected on the log without that entry (this node did not take part:
+// it was not a candidate in that term and had replicated the entry to nobody), appended one entry of its own at the
+// same offset, and reached nobody either. This node's entry was replicated only later; the log of this node goes
+// on with entries of later terms. Such a follower reports (skipped term, offset) as its head.
+func (n *node) foreignShape(l []*proto.LogEntry) ([]*proto.LogEntry, bool) {
+	i, t := n.soloOff, n.soloTerm+1
+	if i < 0 || n.candidateIn[t] || n.soloCommitTerm <= t || int64(len(l)) <= i+1 || l[i].Term != n.soloTerm || l[i+1].Term <= t {
+		return nil, false
+	}
+	var o []*proto.LogEntry
+	for k := int64(0); k < i; k++ {
+		o = append(o, l[k].CloneVT())
+	}
+	o = append(o, &proto.LogEntry{Term: t, Offset: i, Value: []byte("written-by-the-leader-of-a-term-this-node-sat-out"), Timestamp: 1})
+	return o, true
+}
+
 func (n *node) step(op int) bool {
 	s := n.s
 	ctx := context.Background()
@@ -405,12 +436,19 @@ func (n *node) step(op int) bool {
 			l = l[:len(l)-1] // the last entry is on this node only: no follower shape may contain it
 		}
 		fm := map[string]*proto.EntryId{}
+		n.candidateIn[n.ackTerm] = true
 		for i, sh := range []int{el.a, el.b} {
 			lg, ok := shape(sh, l)
+			foreign := int64(-1)
+			if sh == shForeign {
+				if lg, ok = n.foreignShape(l); ok {
+					foreign = n.soloOff
+				}
+			}
 			if !ok {
 				return false
 			}
-			f := &cfol{n: n, name: fmt.Sprintf("f%d", i+1), log: lg, mute: sh == shMute, term: n.ackTerm}
+			f := &cfol{n: n, name: fmt.Sprintf("f%d", i+1), log: lg, mute: sh == shMute, term: n.ackTerm, foreign: foreign}
 			n.f[i] = f
 			n.net.Peers[f.name] = f
 			fm[f.name] = f.head()
@@ -433,8 +471,13 @@ func (n *node) step(op int) bool {
 			return true
 		}
 		if err := r.Val.(res).err; err != nil {
-			n.failf("become-leader-failed", "%s: %v", opName(op), err)
+			if !n.foreignHit { // the checking follower refuses that truncation (reported under its own key)
+				n.failf("become-leader-failed", "%s: %v", opName(op), err)
+			}
 			return true
+		}
+		if n.tail && n.soloCommitTerm == 0 {
+			n.soloCommitTerm = n.ackTerm
 		}
 		n.leading, n.fenced, n.quorum, n.tail = true, false, true, false
 	case op == opPut:
@@ -483,6 +526,9 @@ func (n *node) step(op int) bool {
 		cancel()
 		s.Settle()
 		n.tail = true
+		if l := n.entries(); len(l) > 0 && n.soloOff < 0 {
+			n.soloOff, n.soloTerm, n.soloCommitTerm = l[len(l)-1].Offset, l[len(l)-1].Term, 0
+		}
 	case op == opElectNoQuorum:
 		// only meaningful when the candidate's last entry is on no other node (otherwise a quorum holds it already)
 		if !n.fenced || !n.tail {
@@ -496,7 +542,7 @@ func (n *node) step(op int) bool {
 			if !ok {
 				return false
 			}
-			f := &cfol{n: n, name: fmt.Sprintf("f%d", i+1), log: lg, mute: true, term: n.ackTerm}
+			f := &cfol{n: n, name: fmt.Sprintf("f%d", i+1), log: lg, mute: true, term: n.ackTerm, foreign: -1}
 			n.f[i] = f
 			n.net.Peers[f.name] = f
 			fm[f.name] = f.head()
@@ -634,7 +680,7 @@ func bodyX(seq []int, out *outcome, exploreLast bool) func(s *vsched.Sched) {
 	return func(s *vsched.Sched) {
 		s.Explore(false)
 		env := oxc.NewEnv(s)
-		n := &node{s: s, dir: filepath.Join(env.Dir, "n1"), net: oxc.NewNet(), ackTerm: 0, acked: map[string]string{}}
+		n := &node{s: s, dir: filepath.Join(env.Dir, "n1"), net: oxc.NewNet(), ackTerm: 0, acked: map[string]string{}, soloOff: -1, candidateIn: map[int64]bool{}}
 		defer func() {
 			if n.lc != nil {
 				_ = n.lc.Close()
@@ -703,6 +749,10 @@ func SchedScenarios(tier string, keep map[string]bool) []sched.Scenario {
 		{"uncommitted-tail-then-election-empty+level", []int{opPutNoQuorum, opNewTerm, idx(shEmpty, shEqual)}},
 		{"election-empty+longer-tail-of-older-term", []int{opNewTerm, idx(shEmpty, shDiverge)}},
 		{"uncommitted-tail-then-election-one-behind+longer-tail", []int{opPutNoQuorum, opNewTerm, idx(shBehind1, shDiverge)}},
+		// an entry reaches no follower; this node sits out the next term (whose leader writes its own entry at
+		// that offset, reaching nobody); it leads the term after that with one follower, writes; in the next
+		// election the leader of the skipped term is back
+		{"follower-back-with-entry-of-a-term-this-node-sat-out", []int{opPutNoQuorum, opNewTerm, opNewTerm, idx(shBehind1, shMute), opPut, opNewTerm, idx(shEqual, shForeign)}},
 	}
 	dev := 2
 	if tier == "thorough" {
